@@ -257,8 +257,23 @@ class SymEval:
         st = self.expr(n.step) if n.step is not None else S.NONE
         return S.call("slice", lo, hi, st)
 
+    def _elem_key(self, n):
+        """env key for an element store/load  name[idx]  (scalar index only)"""
+        scalar = not isinstance(n.slice, ast.Slice) and not (
+            isinstance(n.slice, ast.Tuple) and any(isinstance(e, (ast.Slice, ast.Starred)) for e in n.slice.elts))
+        if isinstance(n.value, ast.Name) and scalar:
+            idx = self.expr(n.slice)
+            if not S.has_unknown(idx):
+                return "%s[%s]" % (n.value.id, S.canon(idx))
+        return None
+
     def e_Subscript(self, n):
+        k = self._elem_key(n)
+        if k is not None and k in self.env:
+            return self.env[k]
         base = self.expr(n.value)
+        if base.op == "call" and base.args[0] == "stored":
+            base = base.args[1]
         idx = self.expr(n.slice)
         if base.op == "call" and base.args[0] in ("tuple", "list") and S.is_num(idx):
             i = int(idx.value)
@@ -419,7 +434,12 @@ class SymEval:
                 for i, e in enumerate(t.elts):
                     self.assign_target(e, S.call("getitem", v, S.lift(i)))
         elif isinstance(t, ast.Subscript):
-            # in-place element store: the container's symbolic value is no longer known
+            # in-place element store: remember the element, mark the container as written
+            k = self._elem_key(t)
+            if k is not None:
+                # other remembered elements of the same container may alias only if equal index;
+                # distinct canonical indices are kept (sound for the straight-line stencil bodies)
+                self.env[k] = v
             head, parts = self._dotted_path(t.value)
             if head is not None:
                 key = ".".join([head] + parts)
@@ -442,7 +462,12 @@ class SymEval:
 
     def s_AugAssign(self, st):
         if isinstance(st.target, ast.Subscript):
-            self.assign_target(st.target, S.unknown("aug"))
+            k = self._elem_key(st.target)
+            if k is not None:
+                cur = self.expr(_load(st.target))
+                self.assign_target(st.target, self.binop(st.op, cur, self.expr(st.value)))
+            else:
+                self.assign_target(st.target, S.unknown("aug"))
             return
         cur = self.expr(_load(st.target))
         v = self.binop(st.op, cur, self.expr(st.value))
